@@ -5,6 +5,7 @@ package main
 
 import (
 	"bufio"
+	"bytes"
 	"crypto"
 	"crypto/ecdsa"
 	"crypto/elliptic"
@@ -31,6 +32,7 @@ import (
 var algByName = map[string]x509.SignatureAlgorithm{
 	"unset": 0, "SM2WithSM3": x509.SM2WithSM3, "SM2WithSHA1": x509.SM2WithSHA1, "SM2WithSHA256": x509.SM2WithSHA256,
 	"SHA256WithRSA": x509.SHA256WithRSA, "SHA1WithRSA": x509.SHA1WithRSA, "SHA384WithRSA": x509.SHA384WithRSA, "SHA512WithRSA": x509.SHA512WithRSA,
+	"SHA256WithRSAPSS": x509.SHA256WithRSAPSS, "SHA384WithRSAPSS": x509.SHA384WithRSAPSS, "SHA512WithRSAPSS": x509.SHA512WithRSAPSS,
 	"ECDSAWithSHA256": x509.ECDSAWithSHA256, "ECDSAWithSHA1": x509.ECDSAWithSHA1, "ECDSAWithSHA384": x509.ECDSAWithSHA384, "ECDSAWithSHA512": x509.ECDSAWithSHA512,
 }
 
@@ -315,6 +317,13 @@ func runIssue(kind, family, alg, class string, dense bool) (o issueObs) {
 						o.FieldDiff = []string{"CRL fields differ"}
 					}
 					o.Alg = algNameOID(c.SignatureAlgorithm.Algorithm)
+					if o.Alg == "RSAPSS" { // the hash is in the parameters
+						for h, n := range map[byte]string{1: "SHA256WithRSAPSS", 2: "SHA384WithRSAPSS", 3: "SHA512WithRSAPSS"} {
+							if bytes.Contains(c.SignatureAlgorithm.Parameters.FullBytes, []byte{0x60, 0x86, 0x48, 0x01, 0x65, 0x03, 0x04, 0x02, h}) {
+								o.Alg = n
+							}
+						}
+					}
 				}
 			}
 		}
@@ -404,7 +413,7 @@ func orderOf(pub crypto.PublicKey) *big.Int {
 
 var oidAlg = map[string]string{
 	"1.2.156.10197.1.501": "SM2WithSM3", "1.2.156.10197.1.502": "SM2WithSHA1", "1.2.156.10197.1.503": "SM2WithSHA256",
-	"1.2.840.113549.1.1.11": "SHA256WithRSA", "1.2.840.113549.1.1.5": "SHA1WithRSA", "1.2.840.113549.1.1.12": "SHA384WithRSA", "1.2.840.113549.1.1.13": "SHA512WithRSA",
+	"1.2.840.113549.1.1.10": "RSAPSS", "1.2.840.113549.1.1.11": "SHA256WithRSA", "1.2.840.113549.1.1.5": "SHA1WithRSA", "1.2.840.113549.1.1.12": "SHA384WithRSA", "1.2.840.113549.1.1.13": "SHA512WithRSA",
 	"1.2.840.10045.4.3.2": "ECDSAWithSHA256", "1.2.840.10045.4.1": "ECDSAWithSHA1", "1.2.840.10045.4.3.3": "ECDSAWithSHA384", "1.2.840.10045.4.3.4": "ECDSAWithSHA512",
 }
 
